@@ -120,6 +120,20 @@ def check_batch(items):
         raise Violation("literal:transform_argument", f"bytes {items[bad][0]!r}: transform arguments reported as {md[3 * bad:3 * bad + 3]!r}")
     extra = set(d) - {"useragent", "sleeptime", "jitter", "http-get.client.header", "http-get.client.metadata"}
     check(not extra, "literal:injected_keys", f"unexpected keys {sorted(extra)[:5]} (syntax injected by a literal)")
+    # the same literals once more after the library has written the statements out itself: every literal is printed as the
+    # token it is and read back to the same bytes
+    text2 = lib(r.as_text, what="as_text")
+    r2 = lib(c2profile.C2Profile.from_text, text2, allow=(Exception,), what="from_text(as_text())")
+    if isinstance(r2, Raised):
+        raise Violation("literal:breaks_parser_after_as_text", f"the printed batch does not parse: {r2.exc!r}"[:600])
+    d2 = lib(r2.as_dict, what="as_dict")
+    if d2 != d:
+        for k in d:
+            if d2.get(k) != d[k]:
+                a, b_ = d[k], d2.get(k) or []
+                i = next((i for i in range(len(a)) if i >= len(b_) or a[i] != b_[i]), None)
+                raise Violation("literal:changed_by_as_text", f"{k}[{i}]: parsed {a[i:i + 1]!r}, after as_text() and re-parsing {b_[i:i + 1] if i is not None else b_!r}"[:800])
+        raise Violation("literal:changed_by_as_text", f"keys differ after as_text(): {sorted(set(d) ^ set(d2))[:5]}")
 
 
 def nontrivial(b):
